@@ -155,6 +155,7 @@ def run(prop, tier):
             system = emusrv.System(SPEC, require=req)
             td = system.write(scratch.sub("trace-" + model))
             pool = ServerPool(exe, td, ["-l"])
+            pool.meta = system.meta if "system" in dir() else None
             try:
                 depth = 2
                 restrict = None
